@@ -788,19 +788,25 @@ def Token.strip (t : Token) : Token := { t with content := none }
 
 theorem Token.strip_core (t : Token) : t.strip.core = t.core := rfl
 
-/-- field lengths of a token that fits the wire format `>32s32s{sigLen}s` -/
+/-- the chunk size of unserialize_public is the width of the two hashes read by Token.unserialize
+    (both numbers are regenerated from the source; this stops compiling when only one of them changes) -/
+theorem gen_layout : Gen.chunkBase = Gen.prevLen + Gen.chashLen := by decide
+
+/-- field lengths of a token that fits the wire format `>{prevLen}s{chashLen}s{sigLen}s` -/
 def WireOk (C : Crypto) (t : Token) : Prop :=
-  t.prev.length = 32 ∧ t.chash.length = 32 ∧ t.sig.length = C.sigLen
+  t.prev.length = Gen.prevLen ∧ t.chash.length = Gen.chashLen ∧ t.sig.length = C.sigLen
 
 theorem WireOk.of_core {a b : Token} (h : a.core = b.core) (ha : WireOk C a) : WireOk C b := by
   simp only [Token.core, Prod.mk.injEq] at h
   unfold WireOk at *
   rw [← h.1, ← h.2.1, ← h.2.2]; exact ha
 
-theorem parse_cons (t : Token) (rest : Bytes) (n : Nat) (h1 : t.prev.length = 32) (h2 : t.chash.length = 32)
-    (h3 : t.sig.length = n) :
+theorem parse_cons (t : Token) (rest : Bytes) (n : Nat) (h1 : t.prev.length = Gen.prevLen)
+    (h2 : t.chash.length = Gen.chashLen) (h3 : t.sig.length = n) :
     parseChunks n (t.signed ++ rest) = (t.strip :: (parseChunks n rest).1, (parseChunks n rest).2) := by
-  have hlen : (t.signed ++ rest).length = 64 + n + rest.length := by
+  have hl := gen_layout
+  have hpos : 0 < Gen.prevLen := by decide
+  have hlen : (t.signed ++ rest).length = Gen.prevLen + Gen.chashLen + n + rest.length := by
     simp [Token.signed, h1, h2, h3]; omega
   rw [parseChunks]
   have hne : (t.signed ++ rest).isEmpty = false := by
@@ -810,17 +816,19 @@ theorem parse_cons (t : Token) (rest : Bytes) (n : Nat) (h1 : t.prev.length = 32
   rw [hne]
   simp only [Bool.false_eq_true, ↓reduceIte]
   rw [if_neg (by omega)]
+  have hstep : Gen.chunkBase + n + (1 - (Gen.chunkBase + n)) = Gen.prevLen + Gen.chashLen + n := by omega
+  rw [hstep]
   have e1 : t.signed ++ rest = t.prev ++ (t.chash ++ (t.sig ++ rest)) := by
     simp [Token.signed, List.append_assoc]
   have e2 : t.signed ++ rest = (t.prev ++ t.chash) ++ (t.sig ++ rest) := by
     simp [Token.signed, List.append_assoc]
   have e3 : t.signed ++ rest = (t.prev ++ t.chash ++ t.sig) ++ rest := rfl
-  have a1 : (t.signed ++ rest).take 32 = t.prev := by rw [e1]; exact List.take_left' h1
-  have a2 : ((t.signed ++ rest).drop 32).take 32 = t.chash := by
+  have a1 : (t.signed ++ rest).take Gen.prevLen = t.prev := by rw [e1]; exact List.take_left' h1
+  have a2 : ((t.signed ++ rest).drop Gen.prevLen).take Gen.chashLen = t.chash := by
     rw [e1, List.drop_left' h1]; exact List.take_left' h2
-  have a3 : ((t.signed ++ rest).drop 64).take n = t.sig := by
+  have a3 : ((t.signed ++ rest).drop (Gen.prevLen + Gen.chashLen)).take n = t.sig := by
     rw [e2, List.drop_left' (by simp [h1, h2])]; exact List.take_left' h3
-  have a4 : (t.signed ++ rest).drop (64 + n) = rest := by
+  have a4 : (t.signed ++ rest).drop (Gen.prevLen + Gen.chashLen + n) = rest := by
     rw [e3]; exact List.drop_left' (by simp [h1, h2, h3]; omega)
   rw [a1, a2, a3, a4]
   rfl
